@@ -15,8 +15,10 @@ MODULES = {
     "C01": ("lockstep", "run_c01"),
     "C02": ("lockstep", "run_c02"),
     "C03": ("lockstep", "run_c03"),
+    "C04": ("c04_c09", "run_c04"),
     "C05": ("c05", "run"),
     "C07": ("c07", "run"),
+    "C09": ("c04_c09", "run_c09"),
     "C11": ("c11", "run"),
     "C12": ("c12", "run"),
     "C13": ("c13_c14", "run_c13"),
